@@ -16,6 +16,7 @@ import (
 	"encoding/binary"
 	"fmt"
 	"io"
+	"os"
 	"strings"
 	"time"
 
@@ -205,18 +206,23 @@ func (e *pathExec) Body() {
 	outN := c1["out"] - c0["out"]
 	recv := e.net.AllRecv()
 	// what may legitimately be on the wire: the handed-off lines, in order, minus exactly `slow` of them
+	// a line that passed validation but has no pickle representation (non-integer timestamp) must not
+	// reach the stream in any form: it is counted as bad_pickle (or as slow_conn if it never got that far)
 	var units [][]byte
+	unrepresentable := 0
 	for _, l := range e.p.lines {
 		if e.p.pickle {
 			dp, err := destination.ParseDataPoint([]byte(l))
 			if err != nil {
-				panic(err)
+				unrepresentable++
+				continue
 			}
 			units = append(units, destination.Pickle(dp))
 		} else {
 			units = append(units, []byte(l+"\n"))
 		}
 	}
+	bad := c1["bad_pickle"] - c0["bad_pickle"]
 	got := 0
 	rest := recv
 	for _, u := range units {
@@ -248,20 +254,25 @@ func (e *pathExec) Body() {
 		e.viol = fmt.Sprintf("conn_down_no_spool moved by %d although the endpoint was healthy throughout", down)
 		return
 	}
-	if int64(len(units)-got) != slow {
-		e.viol = fmt.Sprintf("%d of %d lines are missing from the stream but slow_conn counted %d: received %q", len(units)-got, len(units), slow, recv)
+	if bad < 0 || bad > int64(unrepresentable) {
+		e.viol = fmt.Sprintf("bad_pickle counted %d lines, %d of the handed-off lines have no pickle representation", bad, unrepresentable)
 		return
 	}
-	if outN != int64(got) {
-		e.viol = fmt.Sprintf("direction=out counted %d lines, the endpoint received %d", outN, got)
+	if int64(len(units)-got)+int64(unrepresentable)-bad != slow {
+		e.viol = fmt.Sprintf("%d of %d lines are missing from the stream (and %d unrepresentable ones were not counted as bad_pickle) but slow_conn counted %d: received %q", len(units)-got, len(units), int64(unrepresentable)-bad, slow, recv)
+		return
+	}
+	if outN != int64(got)+bad {
+		e.viol = fmt.Sprintf("direction=out counted %d lines, the endpoint received %d (bad_pickle %d)", outN, got, bad)
 	}
 }
 
 func counters(key string) map[string]int64 {
 	return map[string]int64{
-		"slow_conn": harn.Count("dest=" + key + ".unit=Metric.action=drop.reason=slow_conn"),
-		"conn_down": harn.Count("dest=" + key + ".unit=Metric.action=drop.reason=conn_down_no_spool"),
-		"out":       harn.Count("dest=" + key + ".unit=Metric.direction=out"),
+		"slow_conn":  harn.Count("dest=" + key + ".unit=Metric.action=drop.reason=slow_conn"),
+		"conn_down":  harn.Count("dest=" + key + ".unit=Metric.action=drop.reason=conn_down_no_spool"),
+		"out":        harn.Count("dest=" + key + ".unit=Metric.direction=out"),
+		"bad_pickle": harn.Count("dest=" + key + ".unit=Metric.action=drop.reason=bad_pickle"),
 	}
 }
 
@@ -287,6 +298,9 @@ func main() {
 	rep.Quiet()
 	log.SetLevel(log.PanicLevel)
 	log.SetOutput(io.Discard)
+	if dn, err := os.OpenFile(os.DevNull, os.O_WRONLY, 0); err == nil {
+		os.Stderr = dn // Conn.Write prints every unpicklable line to stderr
+	}
 	bound, wdepth := 2, 6
 	if rep.Thorough() {
 		bound, wdepth = 3, 7
@@ -296,7 +310,9 @@ func main() {
 	l5b := "h 3 4"
 	// lengths that fill the 8 and 16 byte buffers exactly, with and without the newline
 	l8, l7, l16 := "ab.c 1 2", "a.b 1 2", "abcd.efgh 12 345"
-	lineSets := [][]string{{l5, l12, l40}, {l40, l5, l12, l5b}, {l8, l7, l16, l5}}
+	// l12f passes validation (timestamps are parsed as floats there) but cannot be pickled
+	l12f := "bb.cc 10 300.5"
+	lineSets := [][]string{{l5, l12, l40}, {l40, l5, l12, l5b}, {l8, l7, l16, l5}, {l5, l12f, l12, l5b}}
 	if rep.Thorough() {
 		lineSets = append(lineSets, []string{l12, l40, l40[:38] + "99", l5})
 	}
